@@ -97,6 +97,98 @@ func verifCanary(label string, cond bool) {}
 //@           (forall k ua.AttributeID :: in(k, n.attr) == old(in(k, n.attr)) && n.attr[k] == old(n.attr[k]))
 
 // ---------------------------------------------------------------------------
+// C32: subscription ids are fresh; foreign subscriptions are not deleted
+// ---------------------------------------------------------------------------
+
+// invariant of the subscription table: every id in use was handed out by the counter
+//@ pred subsInv(s *SubscriptionService) := s.Subs != nil &&
+//@     (forall k uint32 :: { in(k, s.Subs) } in(k, s.Subs) ==> k <= s.lastSubID && s.Subs[k] != nil)
+
+// environment: a request handed to a service handler was produced by the decoder (pointer fields are
+// allocated) and implements Header() by returning its RequestHeader
+//@ func github.com/gopcua/opcua/ua.Request.Header
+//@   assumed
+//@   params r
+//@   assigns nothing
+//@   ensures result != nil
+
+//@ func (*Server).Session
+//@   props C32 C29
+//@   assumed
+//@   requires s != nil
+//@   assigns nothing
+
+//@ func NewSubscription
+//@   props C32
+//@   assumed
+//@   assigns nothing
+//@   ensures result != nil && fresh(result)
+
+//@ func (*SubscriptionService).CreateSubscription
+//@   props C32 C29
+//@   requires s != nil && s.srv != nil && s.srv.cfg != nil && subsInv(s) && s.lastSubID < 4294967295
+//@   requires [arg] typeis(r, *ua.CreateSubscriptionRequest) ==> dyn(r, *ua.CreateSubscriptionRequest) != nil &&
+//@            dyn(r, *ua.CreateSubscriptionRequest).RequestHeader != nil
+//@   assigns *
+//@   after "sc.RemoteAddr()" assigns nothing
+//@   after "ua.NewExtensionObject(nil)" assigns nothing
+//@   ensures [C32:typed] err == nil ==> typeis(r, *ua.CreateSubscriptionRequest) && typeis(result0, *ua.CreateSubscriptionResponse)
+//@   ensures [C32:fresh-id] err == nil ==> forall x uint32 :: x == dyn(result0, *ua.CreateSubscriptionResponse).SubscriptionID ==> !old(in(x, s.Subs))
+//@   ensures [C32:registered] err == nil ==> in(dyn(result0, *ua.CreateSubscriptionResponse).SubscriptionID, s.Subs) && subsInv(s)
+//@   canary ensures [C32:canary-id-one] err == nil ==> dyn(result0, *ua.CreateSubscriptionResponse).SubscriptionID == 1
+
+// same session: the authentication tokens have the same textual form (what the code compares)
+//@ pred sameSession(a *session, b *session) := a != nil && b != nil && ua.nodeStr(a.AuthTokenID) == ua.nodeStr(b.AuthTokenID)
+
+//@ func (*SubscriptionService).DeleteSubscriptions
+//@   props C32 C29
+//@   requires s != nil && s.srv != nil && s.srv.cfg != nil && subsInv(s)
+//@   requires [arg] typeis(r, *ua.DeleteSubscriptionsRequest) ==> dyn(r, *ua.DeleteSubscriptionsRequest) != nil &&
+//@            dyn(r, *ua.DeleteSubscriptionsRequest).RequestHeader != nil
+//@   assigns *
+//@   after "ua.NewExtensionObject(nil)" assigns nothing
+//@   ensures [C32:typed] err == nil ==> typeis(r, *ua.DeleteSubscriptionsRequest) && typeis(result0, *ua.DeleteSubscriptionsResponse)
+//@   ensures [C32:one-result-per-id] err == nil ==> len(dyn(result0, *ua.DeleteSubscriptionsResponse).Results) ==
+//@           len(dyn(r, *ua.DeleteSubscriptionsRequest).SubscriptionIDs)
+//@   loop 0 invariant -1 <= rangeindex && rangeindex < len(req.SubscriptionIDs) && len(results) == len(req.SubscriptionIDs)
+//@   loop 0 invariant [C32:foreign-refused] forall k int :: { results[k] } 0 <= k && k <= rangeindex && results[k] == ua.StatusOK ==>
+//@           in(req.SubscriptionIDs[k], s.Subs) && sameSession(session, s.Subs[req.SubscriptionIDs[k]].Session)
+//@   loop 0 decreases len(req.SubscriptionIDs) - rangeindex
+
+// invariant of the monitored item table: entries are items that belong to a subscription
+//@ pred itemsInv(s *MonitoredItemService) := s.SubService != nil && s.SubService.srv != nil && s.SubService.srv.cfg != nil &&
+//@     (forall k uint32 :: { in(k, s.Items) } in(k, s.Items) ==> s.Items[k] != nil && s.Items[k].Sub != nil)
+
+//@ func (*MonitoredItemService).SetMonitoringMode
+//@   props C32 C29
+//@   requires s != nil && itemsInv(s)
+//@   requires [arg] typeis(r, *ua.SetMonitoringModeRequest) ==> dyn(r, *ua.SetMonitoringModeRequest) != nil &&
+//@            dyn(r, *ua.SetMonitoringModeRequest).RequestHeader != nil
+//@   assigns *
+//@   after "ua.NewExtensionObject(nil)" assigns nothing
+//@   ensures [C32:typed] err == nil ==> typeis(r, *ua.SetMonitoringModeRequest) && typeis(result0, *ua.SetMonitoringModeResponse)
+//@   loop 0 invariant -1 <= rangeindex && rangeindex < len(req.MonitoredItemIDs) && len(results) == len(req.MonitoredItemIDs)
+//@   loop 0 invariant itemsInv(s)
+//@   loop 0 invariant [C32:foreign-refused] forall k int :: { results[k] } 0 <= k && k <= rangeindex && results[k] == ua.StatusOK ==>
+//@           in(req.MonitoredItemIDs[k], s.Items) && sameSession(sess, s.Items[req.MonitoredItemIDs[k]].Sub.Session)
+//@   loop 0 invariant [C32:foreign-untouched] forall p *MonitoredItem :: { p.Mode } allocated(p) && p.Mode != old(p.Mode) ==>
+//@           p.Sub != nil && sameSession(sess, p.Sub.Session)
+//@   loop 0 decreases len(req.MonitoredItemIDs) - rangeindex
+
+//@ func (*MonitoredItemService).DeleteMonitoredItems
+//@   props C32 C29
+//@   requires s != nil && itemsInv(s)
+//@   requires [arg] typeis(r, *ua.DeleteMonitoredItemsRequest) ==> dyn(r, *ua.DeleteMonitoredItemsRequest) != nil &&
+//@            dyn(r, *ua.DeleteMonitoredItemsRequest).RequestHeader != nil
+//@   assigns *
+//@   after "ua.NewExtensionObject(nil)" assigns nothing
+//@   ensures [C32:typed] err == nil ==> typeis(r, *ua.DeleteMonitoredItemsRequest) && typeis(result0, *ua.DeleteMonitoredItemsResponse)
+//@   loop 0 invariant -1 <= rangeindex && rangeindex < len(req.MonitoredItemIDs) && len(results) == len(req.MonitoredItemIDs)
+//@   loop 0 invariant [C32:foreign-refused] forall k int :: { results[k] } 0 <= k && k <= rangeindex && results[k] == ua.StatusOK ==>
+//@           in(req.MonitoredItemIDs[k], s.Items) && sameSession(sess, s.Items[req.MonitoredItemIDs[k]].Sub.Session)
+//@   loop 0 decreases len(req.MonitoredItemIDs) - rangeindex
+
+// ---------------------------------------------------------------------------
 // C33: Browse returns exactly the matching references
 // ---------------------------------------------------------------------------
 
